@@ -203,12 +203,13 @@ public:
       const Scalar th2 = a_in.squaredNorm();
       const Scalar th  = sqrt(th2);
 
-      if (th2 < Scalar(eps2)) {
+      if (th2 < Scalar(detail::tail_switch<Scalar>(5))) {
+        const Scalar th4 = th2 * th2;
         return {
-          Scalar(0.5) - th2 / 24,
-          Scalar(1. / 6) - th2 / 120,
-          -Scalar(1) / 48,
-          -Scalar(1) / 60,
+          Scalar(1) / 2 - th2 / 24 + th4 / 720,
+          Scalar(1) / 6 - th2 / 120 + th4 / 5040,
+          -Scalar(1) / 12 + th2 / 180 - th4 / 6720,
+          -Scalar(1) / 60 + th2 / 1260 - th4 / 60480,
         };
       } else {
         const Scalar sTh = sin(th);
@@ -255,10 +256,11 @@ public:
 
       const Scalar th2 = a_in.squaredNorm();
       const Scalar th  = sqrt(th2);
-      if (th2 < Scalar(eps2)) {
+      if (th2 < Scalar(detail::tail_switch<Scalar>(4))) {
+        const Scalar th4 = th2 * th2;
         return {
-          Scalar(1) / Scalar(12) + th2 / Scalar(720),
-          Scalar(1) / Scalar(360),
+          Scalar(1) / Scalar(12) + th2 / Scalar(720) + th4 / Scalar(30240),
+          Scalar(1) / Scalar(360) + th2 / Scalar(7560) + th4 / Scalar(201600),
         };
       } else {
         const Scalar th3 = th2 * th;
